@@ -99,6 +99,22 @@ CHECKS = {
          "Python formulation); any sanitizer death is a violation with the concrete input.",
          "Function slice (the rest of sysinfo.c needs libraries absent from the sandbox); vla-bound check off (zero-length VLA for len 0 is not an access).",
          "DESIGN.md 2/C20, 1.2", "cbuild"),
+ "C07": ("exploration",
+         "complete enumeration of the hopping generator's finite input domain on three implementations (spec transcription, firmware rfch.c in an ASan/UBSan driver, Python HoppingParams)",
+         "Firmware: all HSN 0..63 x N 1..64 x MAIO {0,1,N-1,63} x the 84 864 frame numbers of a complete T1R cycle plus the last superframe of the "
+         "hyperframe (1.4e9 calls of rfch_get_params); Python: the reduced space (HSN xor T1R, T2, T3, N, MAIO) completely, compared three ways, with "
+         "the reduction itself checked on the real code (quick: 8 values of N, thorough: the complete unreduced space); HSN 0 with all MAIO; rx/tx pair "
+         "selection through the real SETFH handler.",
+         "Reference RNTABLE carried by the harness; host build of rfch.c with l1s defined by the driver.",
+         "DESIGN.md 2/C07", "cbuild+enum"),
+ "C11": ("exploration",
+         "complete enumeration of both multiframe tables: firmware mframe_schedule() stepped through full 51x26x8 cycles per task, trxcon layouts looked up for every (config, tn, fn); correspondence-table oracle",
+         "Every firmware task is run alone through complete 10 608-frame cycles (first and last cycle of the hyperframe; thorough 8 cycle bases) with a "
+         "recording tdma_schedule_set stub; every trxcon (channel combination, timeslot) layout and every frames[fn % period] entry is read under ASan; "
+         "block-start / per-frame sets are compared for all 328 (task, direction, timeslot) triples, bid cycles, lchan_mask and slotmask are checked "
+         "for every layout.",
+         "Correspondence table (firmware task <-> trxcon lchan) is part of the harness; sched_mframe.c built against two stand-in system headers; UBSan shift check off for 1<<31 in mframe_schedule.",
+         "DESIGN.md 2/C11", "cbuild"),
 }
 
 PENDING = {}
